@@ -610,10 +610,14 @@ impl Deco<'_, '_> {
             self.out.push_str(default);
             return comments;
         }
-        let n = self.t.pick(4);
+        let mut n = self.t.pick(4);
         if n == 0 {
             self.out.push_str(default);
             return comments;
+        }
+        if n == 3 {
+            // longer runs: comment blocks with blank-only and empty lines between their comment lines
+            n += self.t.pick(5);
         }
         for _ in 0..n {
             match self.t.pick(6) {
